@@ -3,11 +3,16 @@ package main
 // C13: de-duplication and site compression.
 
 import (
+	"bytes"
 	"fmt"
 	"math/rand"
 	"os"
+	"os/exec"
+	"path/filepath"
+	"strings"
 
 	"github.com/evolbioinfo/goalign/align"
+	"github.com/evolbioinfo/goalign/io/fasta"
 )
 
 func init() { register("c13", c13) }
@@ -172,6 +177,51 @@ func c13(args []string) error {
 		w.add(term, map[string]interface{}{"op": opname, "alphabet": alpha, "names": inN, "seqs": inS, "nasgap": nag, "class": class,
 			"out_names": outN, "out_seqs": outS, "groups": groups, "weights": intsOf(weights), "is_align": isAlign})
 		stats[opname]++
+		// the same de-duplication through the command line: goalign dedup [--unaligned] [--n-as-gap]
+		if bin := os.Getenv("VERIF_GOALIGN_BIN"); bin != "" && kind == 0 && class == OutOk && len(inN) > 0 && !many && r.Intn(3) == 0 {
+			okIn := true
+			for k := range inN {
+				if len(inS[k]) == 0 || strings.ContainsAny(inN[k], " \t>\r\n") || len(inN[k]) == 0 {
+					okIn = false
+				}
+			}
+			if okIn { // the command detects the alphabet from the file: only when it finds the one used here
+				probe := mkSeqBag(alpha, inN, inS)
+				probe.AutoAlphabet()
+				okIn = probe.Alphabet() == alpha
+			}
+			if tmpd, e := os.MkdirTemp("", "c13cli"); okIn && e == nil {
+				inf := filepath.Join(tmpd, "in.fa")
+				var b strings.Builder
+				for k := range inN {
+					fmt.Fprintf(&b, ">%s\n%s\n", inN[k], inS[k])
+				}
+				os.WriteFile(inf, []byte(b.String()), 0644)
+				args := []string{"dedup", "-i", inf}
+				if !isAlign || r.Intn(2) == 0 {
+					args = append(args, "--unaligned")
+				}
+				if nag {
+					args = append(args, "--n-as-gap")
+				}
+				cmd := exec.Command(bin, args...)
+				var stdout bytes.Buffer
+				cmd.Stdout = &stdout
+				runErr := cmd.Run()
+				os.RemoveAll(tmpd)
+				cn, cs := []string{"<goalign " + strings.Join(args, " ") + " failed>"}, []string{"A"}
+				if runErr == nil {
+					if out, pe := fasta.NewParser(bytes.NewReader(stdout.Bytes())).ParseUnalign(); pe == nil {
+						cn, cs = alignContent(out)
+					}
+				}
+				term := fmt.Sprintf("mk %s %s (%s) %s %s %s %s %s", coqZ(alpha), coqRows(inN, inS), opterm, coqBool(false),
+					coqRows(cn, cs), groupsTerm(groups), coqZList([]int{}), coqZ(0))
+				w.add(term, map[string]interface{}{"op": "cli:dedup", "alphabet": alpha, "names": inN, "seqs": inS, "nasgap": nag, "class": OutOk,
+					"out_names": cn, "out_seqs": cs, "groups": groups, "args": args})
+				stats["cli:dedup"]++
+			}
+		}
 	}
 	if g.only >= 0 {
 		w.terms = w.terms[g.only : g.only+1]
